@@ -335,6 +335,10 @@ func C13TransformCache() {
 	if zz.Param("FREEZE", 0) == 1 {
 		zz.Freeze(fo)
 	}
+	// the absolute value of node IDs is process history (how many nodes earlier transforms
+	// created): low, around 2^16 - 10240 (where a code-point rendering of the ID would hit the
+	// surrogate gap) and past the last code point
+	zzSpinNodeIDs([]int{0, 55290, 1114105}[zz.NondetChoice("idBase", zz.Param("IDBASES", 3))])
 	rec := zzRecord()
 	ctx := &transformctx.Ctx{}
 	on := NewParseCtx(ctx, zzFuncs, nil)
@@ -369,6 +373,26 @@ func zzFixedRecord() *idr.Node {
 	zzLeaf(zzElem(a1, "A"), "v", " ")
 	zzLeaf(t, "B", "t")
 	return t
+}
+
+// zzSpinNodeIDs advances the process-wide node ID counter to at least base: in the engine by
+// setting it, natively by creating and releasing nodes.
+func zzSpinNodeIDs(base int) {
+	if base == 0 {
+		return
+	}
+	if zz.Symbolic() {
+		zz.SetGlobalInt("github.com/jf-tech/omniparser/idr.nodeID", base)
+		return
+	}
+	for {
+		n := idr.CreateNode(idr.ElementNode, "spin")
+		id := n.ID
+		idr.RemoveAndReleaseTree(n)
+		if id >= int64(base) {
+			return
+		}
+	}
 }
 
 // C14ParTransform: two goroutines transform their own records over one shared validated
